@@ -85,6 +85,13 @@ def gen_case(rng):
           continue
         leaf = {'macro': mname}
       val = leaf if rng.random() < 0.6 else {'l': [leaf, {'t': [leaf, 3]}]}
+      if rng.random() < 0.2 and not refmodel.suffix_matches(consts, 'key1') and not refmodel.suffix_matches(consts, 'key2'):
+        # several different macros as the keys of one dict literal (their values are distinct strings): every key is
+        # there, each with its own value, evaluated when the consumer is called
+        for mk, mv in (('key1', 'alpha'), ('key2', 'beta')):
+          ops.append({'op': 'bind', 'scope': mk, 'sel': 'gin.macro', 'arg': 'value', 'val': {'s': mv},
+                      '_form': 'macro_text', 'block': False})
+        val = {'d': [[{'macro': 'key1'}, {'s': 'one'}], [{'macro': 'key2'}, val], [{'s': 'plain'}, 3]]}
       ops.append({'op': 'bind', 'scope': '/'.join(rng.choice(scopes)), 'sel': c['_selector'], 'arg': rng.choice(cls),
                   'val': val, '_form': 'text', 'block': False})
     elif r < 0.72:  # constant definition (valid / invalid / duplicate / suffix collision)
